@@ -121,7 +121,7 @@ def _analyze_node(node, config: Config, cwd: Path, *, remote: bool = False) -> D
     elif kind == "for":
         decisions = [_analyze_node(node.body, config, cwd, remote=remote)]
         # Check iteration words for cmdsubs
-        for word in getattr(node, "words", []):
+        for word in getattr(node, "words", None) or []:
             decisions.extend(_analyze_word_parts(word, config, cwd, remote=remote))
         decisions.extend(_analyze_redirects(node, config, cwd, remote=remote))
         return _combine(decisions)
@@ -140,7 +140,7 @@ def _analyze_node(node, config: Config, cwd: Path, *, remote: bool = False) -> D
     elif kind == "select":
         decisions = [_analyze_node(node.body, config, cwd, remote=remote)]
         # Check selection words for cmdsubs
-        for word in getattr(node, "words", []):
+        for word in getattr(node, "words", None) or []:
             decisions.extend(_analyze_word_parts(word, config, cwd, remote=remote))
         decisions.extend(_analyze_redirects(node, config, cwd, remote=remote))
         return _combine(decisions)
